@@ -149,6 +149,14 @@ impl NoGood {
         false
     }
 
+    /// Returns [true] if the other [Interpretation] assigns a different value to at least one variable which is set by both.
+    pub fn is_contradicting(&self, other: &Interpretation) -> bool {
+        let active = (&self.active).bitand(&other.active);
+        let lhs = (&active).bitand(&self.value);
+        let rhs = (&active).bitand(&other.value);
+        !lhs.bitxor(rhs).is_empty()
+    }
+
     /// Returns the number of set (i.e. active) bits.
     pub fn len(&self) -> usize {
         self.active
@@ -259,7 +267,7 @@ impl NoGoodStore {
                 NoGood::try_from_pair_iter(&mut val.iter().filter_map(|ng| ng.conclude(nogood)))
             })
             .try_fold(&mut result, |acc, ng| {
-                if ng.is_violating(acc) {
+                if ng.is_contradicting(acc) {
                     log::trace!("ng conclusion violating");
                     None
                 } else {
